@@ -1,6 +1,7 @@
 import Librfn.Model.Hex
 import Librfn.Spec.Hex
 import Librfn.Lemmas.Hex
+import Librfn.Lemmas.HexSyntax
 /-!
 # C18 — hex dump output parses back to the same bytes; the parser is safe on any text
 
@@ -247,5 +248,269 @@ theorem chunks_shape (bs : List UInt8) :
 example : dump [0, 1, 0xab, 0xff, 16, 17, 18, 19, 20, 21, 22, 23, 24, 25, 26, 27, 28, 29]
     = some ([48,48,48,49,97,98,102,102,49,48,49,49,49,50,49,51,49,52,49,53,49,54,49,55,49,56,49,57,49,97,49,98,10,
              49,99,49,100,10]) := by decide +kernel
+
+/-! ## accepted_syntax -/
+open Librfn.Spec.Hex (isHex hexVal isBlank Item Line itemsText render values AddrOk)
+
+/-- the items of a line, one call each -/
+theorem yields_items : ∀ (its : List Item) (r : Str) (vs : List Int), (∀ it ∈ its, it.WF) →
+    Yields false (parse1 false r) vs → Yields false (parse1 false (itemsText its ++ r)) (its.map Item.value ++ vs) := by
+  intro its
+  induction its with
+  | nil => intro r vs _ h; exact h
+  | cons it its ih =>
+    intro r vs hwf h
+    have e : itemsText (it :: its) ++ r = it.render ++ (itemsText its ++ r) := by
+      simp [itemsText, List.flatMap_cons, List.append_assoc]
+    rw [e, parse1_item it _ (hwf it List.mem_cons_self), List.map_cons, List.cons_append]
+    refine .byte _ _ _ ?_
+    rw [nextCall_byte]
+    exact ih r vs (fun x hx => hwf x (List.mem_cons_of_mem _ hx)) h
+
+theorem item_no_colon (it : Item) (h : it.WF) : ∀ c ∈ it.render, c ≠ 58 := by
+  obtain ⟨hb, hhi, hlo⟩ := h
+  intro c hc
+  unfold Item.render at hc
+  simp only [List.mem_append, List.mem_cons, List.not_mem_nil, or_false] at hc
+  rcases hc with (hc | hc) | hc | hc
+  · exact (blank_facts c (hb c hc)).2.2.1
+  · cases hp : it.pfx with
+    | true =>
+      rw [hp] at hc
+      simp only [if_true, List.mem_cons, List.not_mem_nil, or_false] at hc
+      rcases hc with hc | hc <;> (rw [hc]; decide)
+    | false => rw [hp] at hc; simp at hc
+  · rw [hc]; exact (hex_facts _ hhi).2.2.1
+  · rw [hc]; exact (hex_facts _ hlo).2.2.1
+
+theorem line_no_colon (l : Line) (h : l.WF) (ha : l.addr = none) : ∀ c ∈ l.render, c ≠ 58 := by
+  obtain ⟨_, hi, ht⟩ := h
+  intro c hc
+  unfold Line.render Line.header at hc
+  rw [ha] at hc
+  simp only [List.nil_append, List.mem_append, itemsText, List.mem_flatMap] at hc
+  rcases hc with ⟨it, hit, hc⟩ | hc
+  · exact item_no_colon it (hi it hit) c hc
+  · exact (blank_facts c (ht c hc)).2.2.1
+
+theorem render_no_colon : ∀ (ls : List Line) (last : Line), (∀ l ∈ ls ++ [last], l.WF ∧ l.addr = none) →
+    ∀ c ∈ render ls last, c ≠ 58 := by
+  intro ls
+  induction ls with
+  | nil =>
+    intro last h c hc
+    have := h last (by simp)
+    exact line_no_colon last this.1 this.2 c hc
+  | cons l ls ih =>
+    intro last h c hc
+    simp only [render, List.mem_append, List.mem_cons] at hc
+    rcases hc with hc | hc | hc
+    · have := h l (by simp)
+      exact line_no_colon l this.1 this.2 c hc
+    · rw [hc]; decide
+    · exact ih last (fun x hx => h x (by simp only [List.cons_append, List.mem_cons]; exact Or.inr hx)) c hc
+
+/-- entering a line through `next_line`: the address (if any) is skipped; with no address nothing is, provided
+    no colon follows anywhere -/
+theorem parse1_line_start (l : Line) (k : Str) (h : l.WF) (hk : l.addr = none → ∀ c ∈ l.render ++ k, c ≠ 58) :
+    parse1 true (l.render ++ k) = parse1 false (itemsText l.items ++ (l.trail ++ k)) := by
+  cases ha : l.addr with
+  | none =>
+    have e : l.render ++ k = itemsText l.items ++ (l.trail ++ k) := by
+      simp [Line.render, Line.header, ha, List.append_assoc]
+    rw [← e]
+    exact parse1_true _ _ (skipColon_none _ (hk ha))
+  | some a =>
+    have e : l.render ++ k = a ++ 58 :: (itemsText l.items ++ (l.trail ++ k)) := by
+      simp [Line.render, Line.header, ha, List.append_assoc]
+    rw [e]
+    exact parse1_true _ _ (skipColon_addr a _ (h.1 a ha))
+
+theorem yields_render : ∀ (ls : List Line) (last : Line), (∀ l ∈ ls ++ [last], l.WF) → AddrOk (ls ++ [last]) →
+    Yields false (parse1 true (render ls last)) (values ls last) := by
+  intro ls
+  induction ls with
+  | nil =>
+    intro last hwf _
+    have hl := hwf last (by simp)
+    have e : render [] last = last.render ++ [] := by simp [render]
+    rw [e, parse1_line_start last [] hl (by
+      intro ha; rw [List.append_nil]; exact line_no_colon last hl ha)]
+    have hv : values [] last = last.items.map Item.value ++ [] := by simp [values]
+    rw [hv]
+    refine yields_items _ _ _ hl.2.1 ?_
+    rw [parse1_blanks _ _ hl.2.2, parse1_nil]
+    exact .done
+  | cons l ls ih =>
+    intro last hwf haddr
+    have hl := hwf l (by simp)
+    have hrest : ∀ x ∈ ls ++ [last], x.WF := fun x hx => hwf x (by
+      simp only [List.cons_append, List.mem_cons]; exact Or.inr hx)
+    have haddr' : (l.addr = none → ∀ l' ∈ ls ++ [last], l'.addr = none) ∧ AddrOk (ls ++ [last]) := haddr
+    have e : render (l :: ls) last = l.render ++ (10 :: render ls last) := rfl
+    rw [e, parse1_line_start l _ hl (by
+      intro ha c hc
+      rcases List.mem_append.mp hc with hc | hc
+      · exact line_no_colon l hl ha c hc
+      · rcases List.mem_cons.mp hc with hc | hc
+        · rw [hc]; decide
+        · exact render_no_colon ls last (fun x hx => ⟨hrest x hx, haddr'.1 ha x hx⟩) c hc)]
+    have hv : values (l :: ls) last = l.items.map Item.value ++ values ls last := by
+      simp [values, List.flatMap_cons]
+    rw [hv]
+    refine yields_items _ _ _ hl.2.1 ?_
+    rw [parse1_blanks _ _ hl.2.2, parse1_newline]
+    exact ih last hrest haddr'.2
+
+/-- **Accepted syntax.**  A text made of lines, each an optional `address:` prefix (any bytes but colon and
+    NUL), then pairs of hex digits of either case, each pair preceded by arbitrary blanks and an optional
+    `0x`, then trailing blanks; lines are separated by newlines, the last line may or may not end in one.
+    If the address prefix is on every line — more generally: once a line has none, no later line has one
+    (`AddrOk`) — then, for every number of calls, `hex_get_byte(text, &p)`, `hex_get_byte(NULL, &p)`, …
+    return exactly the values of the pairs and then -1 for ever. -/
+theorem accepted_syntax (ls : List Line) (last : Line) (hwf : ∀ l ∈ ls ++ [last], l.WF) (haddr : AddrOk (ls ++ [last])) :
+    ∀ n, (trace false n (render ls last)).map retOf
+      = ((values ls last).map some ++ List.replicate n (some (-1))).take n :=
+  yields_trace (yields_render ls last hwf haddr)
+
+theorem addrOk_of_all_some : ∀ (ls : List Line), (∀ l ∈ ls, l.addr ≠ none) → AddrOk ls := by
+  intro ls
+  induction ls with
+  | nil => intro _; trivial
+  | cons l ls ih =>
+    intro h
+    exact ⟨fun ha => absurd ha (h l List.mem_cons_self), ih (fun x hx => h x (List.mem_cons_of_mem _ hx))⟩
+
+theorem addrOk_of_all_none : ∀ (ls : List Line), (∀ l ∈ ls, l.addr = none) → AddrOk ls := by
+  intro ls
+  induction ls with
+  | nil => intro _; trivial
+  | cons l ls ih =>
+    intro h
+    exact ⟨fun _ x hx => h x (List.mem_cons_of_mem _ hx), ih (fun x hx => h x (List.mem_cons_of_mem _ hx))⟩
+
+/-- the property's wording: an `address:` prefix on **each** line -/
+theorem accepted_syntax_address_on_each_line (ls : List Line) (last : Line) (hwf : ∀ l ∈ ls ++ [last], l.WF)
+    (h : ∀ l ∈ ls ++ [last], l.addr ≠ none) :
+    ∀ n, (trace false n (render ls last)).map retOf
+      = ((values ls last).map some ++ List.replicate n (some (-1))).take n :=
+  accepted_syntax ls last hwf (addrOk_of_all_some _ h)
+
+/-- … and no address anywhere -/
+theorem accepted_syntax_no_address (ls : List Line) (last : Line) (hwf : ∀ l ∈ ls ++ [last], l.WF)
+    (h : ∀ l ∈ ls ++ [last], l.addr = none) :
+    ∀ n, (trace false n (render ls last)).map retOf
+      = ((values ls last).map some ++ List.replicate n (some (-1))).take n :=
+  accepted_syntax ls last hwf (addrOk_of_all_none _ h)
+
+/-- non-vacuity: `"0000: 0x01 02\n0010:\t0A ff \n"` — two addressed lines, a `0x`, both cases, blanks, a tab -/
+def exLines : List Line :=
+  [⟨some [48, 48, 48, 48], [⟨[32], true, 48, 49⟩, ⟨[32], false, 48, 50⟩], []⟩,
+   ⟨some [48, 48, 49, 48], [⟨[9], false, 48, 65⟩, ⟨[32], false, 102, 102⟩], [32]⟩]
+def exLast : Line := ⟨some [], [], []⟩
+
+example : render exLines exLast =
+    [48,48,48,48,58,32,48,120,48,49,32,48,50,10, 48,48,49,48,58,9,48,65,32,102,102,32,10, 58] ∧
+    values exLines exLast = [1, 2, 10, 255] := by decide +kernel
+example : (∀ l ∈ exLines ++ [exLast], l.WF) ∧ (∀ l ∈ exLines ++ [exLast], l.addr ≠ none) := by
+  simp [exLines, exLast, Line.WF, Item.WF]
+  decide
+
+/-! ## dump_parse_roundtrip
+
+The dump of a byte array is a text of the accepted syntax: one line per row of 16 bytes, no address, no
+blanks, no `0x`, lower case.  The induction over the 16-byte rows is `render_rows`/`values_rows`. -/
+
+def itemOf (b : UInt8) : Item := ⟨[], false, hexDigit (b.toNat / 16), hexDigit (b.toNat % 16)⟩
+def lineOf (chunk : List UInt8) : Line := ⟨none, chunk.map itemOf, []⟩
+def emptyLine : Line := ⟨none, [], []⟩
+
+/-- both digits written for a byte are hex digits and denote the byte -/
+theorem digits_of_byte : ∀ b : UInt8, isHex (hexDigit (b.toNat / 16)) = true ∧ isHex (hexDigit (b.toNat % 16)) = true ∧
+    16 * hexVal (hexDigit (b.toNat / 16)) + hexVal (hexDigit (b.toNat % 16)) = b.toNat :=
+  forall_u8 (fun b => isHex (hexDigit (b.toNat / 16)) = true ∧ isHex (hexDigit (b.toNat % 16)) = true ∧
+    16 * hexVal (hexDigit (b.toNat / 16)) + hexVal (hexDigit (b.toNat % 16)) = b.toNat) (by decide +kernel)
+
+theorem itemOf_value (b : UInt8) : (itemOf b).value = (b.toNat : Int) := by
+  unfold Item.value itemOf
+  dsimp only
+  rw [(digits_of_byte b).2.2]
+
+theorem lineOf_render : ∀ chunk : List UInt8, (lineOf chunk).render = chunk.flatMap pairOf := by
+  intro chunk
+  induction chunk with
+  | nil => rfl
+  | cons b bs ih =>
+    have h : (lineOf (b :: bs)).render = pairOf b ++ (lineOf bs).render := by
+      simp [lineOf, Line.render, Line.header, itemsText, itemOf, Item.render, pairOf]
+    rw [h, ih]; rfl
+
+theorem render_rows : ∀ cs : List (List UInt8), render (cs.map lineOf) emptyLine = cs.flatMap row := by
+  intro cs
+  induction cs with
+  | nil => rfl
+  | cons c cs ih =>
+    rw [List.map_cons, render, ih, lineOf_render, List.flatMap_cons, row, List.append_assoc]
+    rfl
+
+theorem values_rows : ∀ cs : List (List UInt8),
+    values (cs.map lineOf) emptyLine = cs.flatten.map fun b => (b.toNat : Int) := by
+  intro cs
+  induction cs with
+  | nil => rfl
+  | cons c cs ih =>
+    have h : values ((c :: cs).map lineOf) emptyLine = (lineOf c).items.map Item.value ++ values (cs.map lineOf) emptyLine := by
+      simp [values, List.flatMap_cons]
+    rw [h, ih, List.flatten_cons, List.map_append]
+    congr 1
+    simp only [lineOf, List.map_map]
+    apply List.map_congr_left
+    intro b _
+    exact itemOf_value b
+
+theorem rows_wf (cs : List (List UInt8)) : ∀ l ∈ cs.map lineOf ++ [emptyLine], l.WF ∧ l.addr = none := by
+  intro l hl
+  rcases List.mem_append.mp hl with h | h
+  · obtain ⟨c, _, e⟩ := List.mem_map.mp h
+    subst e
+    refine ⟨?_, rfl⟩
+    unfold Line.WF
+    refine ⟨?_, ?_, ?_⟩
+    · intro a ha; simp [lineOf] at ha
+    · intro it hit
+      obtain ⟨b, _, e⟩ := List.mem_map.mp hit
+      subst e
+      unfold Item.WF
+      refine ⟨?_, (digits_of_byte b).1, (digits_of_byte b).2.1⟩
+      intro c hc; simp [itemOf] at hc
+    · intro c hc; simp [lineOf] at hc
+  · rw [List.mem_singleton.mp h]
+    refine ⟨?_, rfl⟩
+    unfold Line.WF
+    refine ⟨?_, ?_, ?_⟩
+    · intro a ha; simp [emptyLine] at ha
+    · intro it hit; simp [emptyLine] at hit
+    · intro c hc; simp [emptyLine] at hc
+
+/-- **Round trip.**  For every byte array `bs` (any length, all byte values) `hex_dump_to_file` writes a text on
+    which, for every number of calls `n`, `hex_get_byte(text, &p)`, `hex_get_byte(NULL, &p)`, … return exactly the
+    bytes of `bs` in order and then -1 for ever. -/
+theorem dump_parse_roundtrip (bs : List UInt8) :
+    ∃ text, dump bs = some text ∧
+      ∀ n, (trace false n text).map retOf
+        = ((bs.map fun (b : UInt8) => some (b.toNat : Int)) ++ List.replicate n (some (-1))).take n := by
+  refine ⟨format bs, dump_format bs, ?_⟩
+  intro n
+  have e : format bs = render ((chunks bs).map lineOf) emptyLine := (render_rows (chunks bs)).symm
+  rw [e, accepted_syntax_no_address _ _ (fun l hl => (rows_wf _ l hl).1) (fun l hl => (rows_wf _ l hl).2) n,
+    values_rows, chunks_flatten bs.length bs (Nat.le_refl _), List.map_map]
+  rfl
+
+/-- non-vacuity: 17 bytes (two rows) incl. 0x0a, 0x3a (`:`), 0x78 (`x`) and 0xff come back, then -1 -/
+example : (match dump [0x0a, 0x3a, 0x78, 0xff, 0, 1, 2, 3, 4, 5, 6, 7, 8, 9, 10, 11, 0xa0] with
+    | some text => (trace false 19 text).map retOf
+    | none => []) =
+    [some 10, some 58, some 120, some 255, some 0, some 1, some 2, some 3, some 4, some 5, some 6, some 7, some 8,
+     some 9, some 10, some 11, some 160, some (-1), some (-1)] := by decide +kernel
 
 end Librfn.C18
